@@ -21,7 +21,7 @@ RULES = [  # first match wins
     (r"congruence|sign|constant|boolean\.|small_range|dis_interval|lib/", "C08"),
     (r"term_equiv|uf_domain|powerset|value_partitioning|numerical_packing|union_find|fixed_tvpi|tvpi|term/", "C03"),
 ]
-OVERRIDE = {"e852a9c": "C18", "61bef63": "C18", "850cda9": "C18", "073d640": "C17", "23e99fe": "C18", "de2e762": "C03", "ca6fd31": "C03",
+OVERRIDE = {"140127f": "C05", "e852a9c": "C18", "61bef63": "C18", "850cda9": "C18", "073d640": "C17", "23e99fe": "C18", "de2e762": "C03", "ca6fd31": "C03",
             "54f53f4": "C04", "b3e9dcd": "C16", "b2556dc": "C10", "e5e4ea3": "C04", "c706d46": "C04", "fd43778": "C02", "f8d1691": "C01", "fcd59f9": "C03", "9223cdb": "C02", "9a6bfed": "C02", "7d5f17d": "C02", "52cf904": "C10", "c0d2f63": "C02", "e264fb7": "C03", "1652174": "C01", "64109f1": "C01"}
 log = subprocess.check_output(["git", "-C", "/repo", "log", "--reverse", "--format=%h\t%s"], universal_newlines=True)
 fixed = []
